@@ -15,6 +15,16 @@ Definition all_ge (lo : R) (l : list R) := forall j, (j < length l)%nat -> lo <=
 Definition all_le (hi : R) (l : list R) := forall j, (j < length l)%nat -> nth j l 0 <= hi.
 Definition nondecr (l : list R) := forall j, (S j < length l)%nat -> nth j l 0 <= nth (S j) l 0.
 
+(* discretely superharmonic with the ghost conventions of the ideal step (0 at the frac face, mirror at
+   the outer boundary): every node is at least the mean of its neighbours *)
+Definition superharm (l : list R) := forall j, (1 <= j <= length l)%nat ->
+  0 <= 2 * ghostU 0 l j - ghostU 0 l (j-1)%nat - ghostU 0 l (j+1)%nat.
+Definition pointwise_le (a b : list R) := forall j, (j < length a)%nat -> nth j a 0 <= nth j b 0.
+
+(* excess over the frac-face value g bounded by C times the barrier phi (MinPrinciple) *)
+Definition excess_le (g C : R) (l : list R) := forall j, (j < length l)%nat ->
+  nth j l 0 - g <= C * phi (length l) (S j).
+
 Lemma set_first_length (l : list R) v : length (set_first l v) = length l.
 Proof. destruct l; reflexivity. Qed.
 Lemma nth_set_first (l : list R) v j : (j < length l)%nat ->
@@ -134,6 +144,30 @@ Section Single.
         specialize (M (S j) ltac:(lia)). rewrite !ghostU_val in M by lia.
         replace (S j - 1)%nat with j in M by lia. replace (S (S j) - 1)%nat with (S j) in M by lia. exact M.
     Qed.
+
+    (* C01, relaxation: with diffusivity at least amin the excess over the frac-face value shrinks by
+       the factor n(n+1)/(n(n+1) + 2 mesh amin) in the barrier norm, whatever the step size *)
+    Theorem single_step_relax amin C :
+      0 <= amin -> (forall v, amin <= alpha_s v) -> 0 <= C -> excess_le m_f C prev ->
+      excess_le m_f (relax_factor n (mesh * amin) * C) new.
+    Proof.
+      intros Ha Hamin HC Hex. pose proof single_sys as HSys. destruct Hstep as [Hl _].
+      intros j Hj. rewrite Hl in *. fold n in Hj |- *.
+      replace (nth j new 0) with (ghostU m_f new (S j)) by (rewrite ghostU_val by lia; f_equal; lia).
+      apply (step_relax n (ghostK k) (ghostB m_f k rhs) (ghostU m_f new) m_f (mesh * amin) C Hn).
+      - apply Rmult_le_pos; assumption.
+      - intros i Hi. unfold ghostK. rewrite nth_k by lia. apply Rmult_le_compat_l; [exact Hmesh|apply Hamin].
+      - exact HSys.
+      - exact HC.
+      - intros i Hi. rewrite ghostB_val by exact Hi.
+        destruct (phi_bounds n i ltac:(lia)) as [Hp _].
+        destruct (Nat.eqb_spec i 1) as [->|Hi1].
+        + assert (0 <= C * phi n 1) by (apply Rmult_le_pos; assumption). lra.
+        + specialize (Hex (i-1)%nat ltac:(fold n; lia)). fold n in Hex.
+          replace (S (i-1)) with i in Hex by lia.
+          pose proof (Rmin_l (nth (i-1) prev 0) m_i). lra.
+      - lia.
+    Qed.
   End OneStep.
 
   (* C01: the constant profile at the frac-face value is the fixed point of every step,
@@ -217,6 +251,44 @@ Section Single.
         * exact (proj1 Hb).
         * exact Hrest.
   Qed.
+  (* constant drawdown at m_f: every stored level's excess is bounded by the running product of the
+     relaxation factors *)
+  Fixpoint RunRelax (g C amin dx2 : R) (n : nat) (times : list R) (rest : list (list R)) : Prop :=
+    match times, rest with
+    | t0 :: ((t1 :: _) as tt), nxt :: rs =>
+        let C' := relax_factor n ((t1 - t0) / dx2 * amin) * C in
+        excess_le g C' nxt /\ RunRelax g C' amin dx2 n tt rs
+    | _, _ => True
+    end.
+
+  Theorem simulate_single_relax dx2 amin m_f : 0 < dx2 -> 0 <= amin -> (forall v, amin <= alpha_s v) ->
+    forall times mf prev rest C,
+      sorted_times times -> (forall f, In f mf -> f = m_f) ->
+      (1 <= length prev)%nat -> 0 <= C -> excess_le m_f C prev ->
+      RunSingle dx2 times mf prev rest -> RunRelax m_f C amin dx2 (length prev) times rest.
+  Proof.
+    intros Hdx Ha Hamin times. induction times as [|t0 tt IH]; intros mf prev rest C Hs Hmf Hn HC Hex Hrun.
+    - exact I.
+    - destruct tt as [|t1 tt']; [exact I|].
+      destruct rest as [|nxt rs]; [exact I|].
+      destruct mf as [|f0 ft]; [simpl in Hrun; discriminate|].
+      simpl in Hrun. destruct Hrun as [Hstep Hrest]. destruct Hs as [Ht Hs'].
+      assert (Hmesh : 0 <= (t1 - t0) / dx2).
+      { apply Rmult_le_pos; [lra|]. left. now apply Rinv_0_lt_compat. }
+      assert (Hf0 : f0 = m_f) by (apply Hmf; left; reflexivity). subst f0.
+      pose proof (single_step_relax m_f _ prev nxt Hmesh Hn Hstep amin C Ha Hamin HC Hex) as Hr.
+      cbn [RunRelax]. split; [exact Hr|].
+      destruct (relax_factor_bounds (length prev) ((t1 - t0) / dx2 * amin) Hn ltac:(apply Rmult_le_pos; assumption)) as [Hr0 _].
+      assert (Hlen : length nxt = length prev) by (destruct Hstep as [Hl _]; exact Hl).
+      rewrite <- Hlen.
+      apply (IH ft nxt rs).
+      + exact Hs'.
+      + intros f Hf. apply Hmf. right. exact Hf.
+      + rewrite Hlen. exact Hn.
+      + rewrite Hlen. apply Rmult_le_pos; lra.
+      + rewrite Hlen. exact Hr.
+      + exact Hrest.
+  Qed.
 End Single.
 
 (* ------------------------------------------------------------------------------------ *)
@@ -279,7 +351,58 @@ Section Ideal.
         specialize (M (S j) ltac:(lia)). rewrite !ighostU_val in M by lia.
         replace (S j - 1)%nat with j in M by lia. replace (S (S j) - 1)%nat with (S j) in M by lia. exact M.
     Qed.
+
+    Theorem ideal_step_relax C : 0 <= C -> excess_le 0 C prev ->
+      excess_le 0 (relax_factor n mesh * C) new.
+    Proof.
+      intros HC Hex. pose proof ideal_sys as HSys. destruct Hstep as [Hl _].
+      intros j Hj. rewrite Hl in *. fold n in Hj |- *.
+      replace (nth j new 0) with (ghostU 0 new (S j)) by (rewrite ighostU_val by lia; f_equal; lia).
+      apply (step_relax n (ghostK k) (ghostB 0 k prev) (ghostU 0 new) 0 mesh C Hn).
+      - exact Hmesh.
+      - intros i Hi. unfold ghostK, k. rewrite (nth_map_lt _ _ _ 0) by (fold n; lia). lra.
+      - exact HSys.
+      - exact HC.
+      - intros i Hi. rewrite ighostB_val by exact Hi.
+        specialize (Hex (i-1)%nat ltac:(fold n; lia)). fold n in Hex.
+        now replace (S (i-1)) with i in Hex by lia.
+      - lia.
+    Qed.
+
+    (* monotone in time: a discretely superharmonic level is followed by a lower, superharmonic one *)
+    Lemma ighostU_prev j : (1 <= j <= n)%nat -> ghostU 0 prev j = nth (j-1) prev 0.
+    Proof.
+      intros Hj. unfold ghostU. destruct j; [lia|]. fold n.
+      destruct (Nat.ltb_spec j n); [|lia]. now replace (S j - 1)%nat with j by lia.
+    Qed.
+
+    Theorem ideal_step_time_monotone : superharm prev -> pointwise_le new prev /\ superharm new.
+    Proof.
+      intros Hsh. pose proof ideal_sys as HSys. destruct Hstep as [Hl _].
+      destruct (step_time_monotone n (mesh * 1) (ghostK k) (ghostB 0 k prev) (ghostU 0 prev) (ghostU 0 new) Hn)
+        as [Hle Hsh'].
+      - lra.
+      - intros j Hj. unfold ghostK, k. rewrite (nth_map_lt _ _ _ 0) by (fold n; lia). reflexivity.
+      - exact HSys.
+      - reflexivity.
+      - unfold ghostU. fold n. destruct (Nat.ltb_spec n n); [lia|].
+        destruct n as [|i] eqn:En; [lia|]. destruct (Nat.ltb_spec i (S i)); [|lia].
+        now replace (S i - 1)%nat with i by lia.
+      - intros j Hj. rewrite ighostU_prev, ighostB_val by exact Hj. reflexivity.
+      - intros j Hj. apply Hsh. fold n. exact Hj.
+      - split.
+        + intros j Hj. rewrite Hl in Hj. fold n in Hj.
+          specialize (Hle (S j) ltac:(lia)). rewrite ighostU_val, ighostU_prev in Hle by lia.
+          now replace (S j - 1)%nat with j in Hle by lia.
+        + intros j Hj. rewrite Hl in Hj. fold n in Hj. apply Hsh'. exact Hj.
+    Qed.
   End OneStep.
+
+  Fixpoint decreasing_chain (prev : list R) (rest : list (list R)) : Prop :=
+    match rest with
+    | [] => True
+    | x :: rs => pointwise_le x prev /\ decreasing_chain x rs
+    end.
 
   Fixpoint RunIdeal (dx2 : R) (times : list R) (prev : list R) (rest : list (list R)) : Prop :=
     match times with
@@ -307,6 +430,48 @@ Section Ideal.
         pose proof (ideal_step_bounds _ prev nxt Hmesh Hn Hstep 1 ltac:(lra) Hlo Hhi) as Hb.
         constructor; [exact Hb|].
         apply (IH nxt rs Hs'); [destruct Hstep as [Hl _]; rewrite Hl; exact Hn | apply Hb | apply Hb | exact Hrest].
+  Qed.
+  Theorem simulate_ideal_time_monotone dx2 : 0 < dx2 ->
+    forall times prev rest, sorted_times times -> (1 <= length prev)%nat ->
+      superharm prev -> RunIdeal dx2 times prev rest -> decreasing_chain prev rest.
+  Proof.
+    intros Hdx times. induction times as [|t0 tt IH]; intros prev rest Hs Hn Hsh Hrun.
+    - simpl in Hrun. subst rest. exact I.
+    - destruct tt as [|t1 tt'].
+      + simpl in Hrun. subst rest. exact I.
+      + destruct rest as [|nxt rs]; [exact I|].
+        simpl in Hrun. destruct Hrun as [Hstep Hrest]. destruct Hs as [Ht Hs'].
+        assert (Hmesh : 0 <= (t1 - t0) / dx2).
+        { apply Rmult_le_pos; [lra|]. left. now apply Rinv_0_lt_compat. }
+        destruct (ideal_step_time_monotone _ prev nxt Hmesh Hn Hstep Hsh) as [Hle Hsh'].
+        split; [exact Hle|].
+        apply (IH nxt rs Hs'); [destruct Hstep as [Hl _]; rewrite Hl; exact Hn | exact Hsh' | exact Hrest].
+  Qed.
+  Fixpoint RunRelaxIdeal (C dx2 : R) (n : nat) (times : list R) (rest : list (list R)) : Prop :=
+    match times, rest with
+    | t0 :: ((t1 :: _) as tt), nxt :: rs =>
+        let C' := relax_factor n ((t1 - t0) / dx2) * C in
+        excess_le 0 C' nxt /\ RunRelaxIdeal C' dx2 n tt rs
+    | _, _ => True
+    end.
+
+  Theorem simulate_ideal_relax dx2 : 0 < dx2 ->
+    forall times prev rest C, sorted_times times -> (1 <= length prev)%nat -> 0 <= C ->
+      excess_le 0 C prev -> RunIdeal dx2 times prev rest -> RunRelaxIdeal C dx2 (length prev) times rest.
+  Proof.
+    intros Hdx times. induction times as [|t0 tt IH]; intros prev rest C Hs Hn HC Hex Hrun.
+    - exact I.
+    - destruct tt as [|t1 tt']; [exact I|].
+      destruct rest as [|nxt rs]; [exact I|].
+      simpl in Hrun. destruct Hrun as [Hstep Hrest]. destruct Hs as [Ht Hs'].
+      assert (Hmesh : 0 <= (t1 - t0) / dx2).
+      { apply Rmult_le_pos; [lra|]. left. now apply Rinv_0_lt_compat. }
+      pose proof (ideal_step_relax _ prev nxt Hmesh Hn Hstep C HC Hex) as Hr.
+      cbn [RunRelaxIdeal]. split; [exact Hr|].
+      destruct (relax_factor_bounds (length prev) ((t1 - t0) / dx2) Hn Hmesh) as [Hr0 _].
+      assert (Hlen : length nxt = length prev) by (destruct Hstep as [Hl _]; exact Hl).
+      rewrite <- Hlen.
+      apply (IH nxt rs); [exact Hs' | rewrite Hlen; exact Hn | rewrite Hlen; apply Rmult_le_pos; lra | rewrite Hlen; exact Hr | exact Hrest].
   Qed.
 End Ideal.
 
@@ -373,6 +538,40 @@ Section Functional.
       rewrite (nth_indep _ 0 m_i) by (rewrite repeat_length; exact Hj). rewrite nth_repeat. apply Rmin_l.
     - apply run_single_is_run; [exact Hdx | exact Hs | rewrite Hlen; simpl; lia].
   Qed.
+  (* C01, relaxation, functional form: under constant drawdown at m_f every level the model stores
+     exceeds m_f by at most (m_i - m_f)/(2 nx) * phi * (product of the relaxation factors so far) *)
+  Theorem simulate_single_model_relax dx2 nx times mf m_f amin : 0 < dx2 -> (1 <= nx)%nat ->
+    sorted_times times -> (length mf = length times)%nat -> (forall f, In f mf -> f = m_f) ->
+    m_f <= m_i -> 0 <= amin -> (forall v, amin <= alpha_s v) ->
+    match simulate_single NumR alpha_s m_i nx dx2 times mf with
+    | [] => True
+    | init :: rest => RunRelax m_f ((m_i - m_f) / (2 * INR nx)) amin dx2 nx times rest
+    end.
+  Proof.
+    intros Hdx Hnx Hs Hlen Hmf Hle Ha Hamin. unfold simulate_single.
+    destruct times as [|t0 tt]; [exact I|].
+    set (init := set_first (repeat m_i nx) (hd (n0 NumR) mf)).
+    assert (Hli : length init = nx) by (unfold init; now rewrite set_first_length, repeat_length).
+    assert (Hnx' : 0 < 2 * INR nx) by (apply le_INR in Hnx; simpl in Hnx; lra).
+    assert (HC : 0 <= (m_i - m_f) / (2 * INR nx)) by (apply Rmult_le_pos; [lra|left; now apply Rinv_0_lt_compat]).
+    rewrite <- Hli.
+    apply (simulate_single_relax alpha_s m_i dx2 amin m_f Hdx Ha Hamin (t0 :: tt) mf init).
+    - exact Hs.
+    - exact Hmf.
+    - rewrite Hli. exact Hnx.
+    - rewrite Hli. exact HC.
+    - intros j Hj. rewrite Hli in *. unfold init.
+      rewrite nth_set_first by (rewrite repeat_length; exact Hj).
+      destruct mf as [|f0 ft]; [simpl in Hlen; discriminate|].
+      assert (f0 = m_f) by (apply Hmf; left; reflexivity). subst f0. simpl hd.
+      pose proof (phi_ge_first nx (S j) ltac:(lia)) as Hphi.
+      destruct (Nat.eqb j 0).
+      + assert (0 <= (m_i - m_f) / (2 * INR nx) * phi nx (S j)) by (apply Rmult_le_pos; lra). lra.
+      + rewrite (nth_indep _ 0 m_i) by (rewrite repeat_length; exact Hj). rewrite nth_repeat.
+        apply Rle_trans with ((m_i - m_f) / (2 * INR nx) * (2 * INR nx)); [right; field; lra|].
+        apply Rmult_le_compat_l; assumption.
+    - apply run_single_is_run; [exact Hdx | exact Hs | rewrite Hlen; simpl; lia].
+  Qed.
 End Functional.
 
 Lemma ideal_next_is_step mesh prev : 0 <= mesh -> IdealStep mesh prev (ideal_next NumR mesh prev).
@@ -410,5 +609,56 @@ Proof.
   - rewrite repeat_length. exact Hnx.
   - apply Hinit.
   - apply Hinit.
+  - apply run_ideal_is_run; assumption.
+Qed.
+
+Lemma superharm_ones nx : (1 <= nx)%nat -> superharm (repeat (n1 NumR) nx).
+Proof.
+  intros Hnx j Hj. rewrite repeat_length in Hj.
+  assert (G : forall i, (1 <= i)%nat -> ghostU 0 (repeat (n1 NumR) nx) i = 1).
+  { intros i Hi. unfold ghostU. destruct i; [lia|]. rewrite repeat_length.
+    destruct (Nat.ltb_spec i nx).
+    - rewrite (nth_indep _ 0 (n1 NumR)) by (rewrite repeat_length; lia). now rewrite nth_repeat.
+    - rewrite (nth_indep _ 0 (n1 NumR)) by (rewrite repeat_length; lia). now rewrite nth_repeat. }
+  rewrite (G j) by lia. rewrite (G (j+1)%nat) by lia.
+  destruct (Nat.eq_dec j 1) as [->|Hj1]; [simpl; lra|]. rewrite (G (j-1)%nat) by lia. lra.
+Qed.
+
+(* C01: under constant drawdown the ideal reservoir's profile never rises in time, at any node, for any
+   non-decreasing time grid *)
+Theorem simulate_ideal_model_time_monotone dx2 nx times : 0 < dx2 -> (1 <= nx)%nat -> sorted_times times ->
+  match simulate_ideal NumR nx dx2 times with
+  | [] => True
+  | first :: rest => decreasing_chain first rest
+  end.
+Proof.
+  intros Hdx Hnx Hs. unfold simulate_ideal. destruct times as [|t0 tt]; [exact I|].
+  apply (simulate_ideal_time_monotone dx2 Hdx (t0 :: tt) (repeat (n1 NumR) nx)); auto.
+  - rewrite repeat_length. exact Hnx.
+  - now apply superharm_ones.
+  - apply run_ideal_is_run; assumption.
+Qed.
+
+Theorem simulate_ideal_model_relax dx2 nx times : 0 < dx2 -> (1 <= nx)%nat -> sorted_times times ->
+  match simulate_ideal NumR nx dx2 times with
+  | [] => True
+  | init :: rest => RunRelaxIdeal (1 / (2 * INR nx)) dx2 nx times rest
+  end.
+Proof.
+  intros Hdx Hnx Hs. unfold simulate_ideal. destruct times as [|t0 tt]; [exact I|].
+  set (init := repeat (n1 NumR) nx).
+  assert (Hli : length init = nx) by apply repeat_length.
+  assert (Hnx' : 0 < 2 * INR nx) by (apply le_INR in Hnx; simpl in Hnx; lra).
+  assert (HC : 0 <= 1 / (2 * INR nx)) by (apply Rmult_le_pos; [lra|left; now apply Rinv_0_lt_compat]).
+  rewrite <- Hli.
+  apply (simulate_ideal_relax dx2 Hdx (t0 :: tt) init).
+  - exact Hs.
+  - rewrite Hli. exact Hnx.
+  - rewrite Hli. exact HC.
+  - intros j Hj. rewrite Hli in *. unfold init.
+    rewrite (nth_indep _ 0 (n1 NumR)) by (rewrite repeat_length; exact Hj). rewrite nth_repeat. simpl.
+    pose proof (phi_ge_first nx (S j) ltac:(lia)) as Hphi.
+    apply Rle_trans with (1 / (2 * INR nx) * (2 * INR nx)); [right; field; lra|].
+    apply Rmult_le_compat_l; assumption.
   - apply run_ideal_is_run; assumption.
 Qed.
